@@ -264,7 +264,7 @@ search_page_rev(cache_page *vtp, vbi_bool wrapped, void *p)
 	vbi_search *s = p;
 	vbi_char *acp;
 	int row, this, start, stop;
-	unsigned long ms, me;
+	unsigned long ms, me, pos;
 	ucs2_t *hp;
 	int flags, i, j;
 
@@ -339,8 +339,9 @@ break2:
 	/* Search */
 
 	ms = me = 0;
+	pos = 0;
 
-	for (i = 0; s->haystack + me < hp; i++) {
+	for (i = 0; s->haystack + pos < hp; i++) {
 		unsigned long ms1, me1;
 /*
 fprintf(stderr, "exec: %x/%x; %d, %d; '%c%c%c...'\n",
@@ -350,12 +351,16 @@ fprintf(stderr, "exec: %x/%x; %d, %d; '%c%c%c...'\n",
 	_vbi_to_ascii (s->haystack[me + 2])
 );
 */
-		if (!ure_exec(s->ud, (me > 0) ? (flags | URE_NOTBOL) : flags,
-		    s->haystack + me, hp - s->haystack - me, &ms1, &me1))
+		if (!ure_exec(s->ud, (pos > 0) ? (flags | URE_NOTBOL) : flags,
+		    s->haystack + pos, hp - s->haystack - pos, &ms1, &me1))
 			break;
 
-		ms = me + ms1;
-		me = me + me1;
+		ms = pos + ms1;
+		me = pos + me1;
+
+		/* Continue behind this match. An empty match (e.g. of
+		   "^") must not keep us at the same place for ever. */
+		pos = (me > pos) ? me : pos + 1;
 	}
 
 	if (i == 0)
